@@ -79,6 +79,9 @@ def chain_cases(acc, probe, rng, count):
                 acc.evaluations += 1
                 w = {"files": files, "symbol": sym, "at": [f, ln, col], "new_name": new, "chain": info}
                 prep = pr.pos_request("textDocument/prepareRename", f, ln, col)
+                if prep.get("busy"):
+                    acc.inconc("language server still computing after the extended watchdog")
+                    break
                 if "dead" in prep or "timeout" in prep:
                     acc.violation("server-died|prepareRename|import-chain", "no answer", dict(w, response=prep))
                     return
@@ -87,6 +90,9 @@ def chain_cases(acc, probe, rng, count):
                     continue
                 resp = pr.pos_request("textDocument/rename", f, ln, col, {"newName": new})
                 w["response"] = resp
+                if resp.get("busy"):
+                    acc.inconc("language server still computing after the extended watchdog")
+                    break
                 if "dead" in resp or "timeout" in resp:
                     acc.violation("server-died|rename|import-chain", "no answer", w)
                     return
@@ -182,6 +188,9 @@ def shard(idx, n, seed, tier, params):
                 acc.evaluations += 1
                 prep = pr.pos_request("textDocument/prepareRename", f, ln, col)
                 w = {"files": files, "symbol": d.name, "kind": d.kind, "at": [f, ln, col], "new_name": new}
+                if prep.get("busy"):
+                    acc.inconc("language server still computing after the extended watchdog")
+                    break
                 if "dead" in prep or "timeout" in prep:
                     acc.violation("server-died|prepareRename", "no answer: %s" % pr.srv.stderr[-200:].decode("utf8", "replace"), dict(w, response=prep))
                     break
@@ -190,6 +199,9 @@ def shard(idx, n, seed, tier, params):
                     continue
                 resp = pr.pos_request("textDocument/rename", f, ln, col, {"newName": new})
                 w["response"] = resp
+                if resp.get("busy"):
+                    acc.inconc("language server still computing after the extended watchdog")
+                    break
                 if "dead" in resp or "timeout" in resp:
                     acc.violation("server-died|rename", "no answer: %s" % pr.srv.stderr[-200:].decode("utf8", "replace"), w)
                     break
@@ -237,6 +249,9 @@ def shard(idx, n, seed, tier, params):
                 if same_len:
                     pr.set_contents(new_files)
                     back = pr.pos_request("textDocument/rename", f, ln, col, {"newName": d.name})
+                    if back.get("busy"):
+                        acc.inconc("language server still computing after the extended watchdog")
+                        break
                     if "dead" in back or "timeout" in back:
                         acc.violation("server-died|rename-back", "no answer", dict(w, response2=back))
                         break
